@@ -26,6 +26,18 @@ def run_script(case):
                     out.append({"blast": r, "status": None, "rows": None})
                 else:
                     out.append(None)
+            elif step[0] == "slowread":
+                # ("slowread", query, step point, ms): the query runs in the background while every reader that
+                # reaches the step point is held there for ms milliseconds (a slow shard scan), then released
+                _, q, point, ms = step
+                e.cmd(f"!park {point}")
+                e.cmd("!bg " + q)
+                parked = e.cmd(f"!wait_parked {point} 3000").get("parked")
+                e.cmd(f"!sleep {int(ms)}")
+                e.cmd(f"!release {point}")
+                r = engine.parse_stream(e.cmd("!join"))
+                out.append({"status": r.get("status"), "rows": r.get("rows"), "message": r.get("message"), "error": r.get("error"),
+                            "parked": parked})
             elif step[0] == "quiesce":
                 e.cmd("!flushwait"); e.cmd("!wal_drained 3000"); out.append(None)
             elif step[0] == "restart":
